@@ -84,6 +84,10 @@ theorem step_fresh_stores (f : Facts) (hf : f.Guarded) (im : Impl) (ord : Ord) (
             rw [hf.edge]; rfl
           exact guarded_fresh_stores _ hg b _ k h
 
+theorem guarded_err (b : Builder) (he : b.buildError = none) (hc : b.compiled = false) (g : Guards) (k : ErrKind) :
+    (guarded g b (.error k)).2 = .fresh k := by
+  simp [guarded, he, hc]
+
 /-- after a successful compile nothing can be added -/
 theorem step_compiled (f : Facts) (hf : f.Guarded) (im : Impl) (ord : Ord) (b : Builder)
     (he : b.buildError = none) (hc : b.compiled = true) (op : Op) (hop : op.isCompile = false) :
@@ -136,6 +140,11 @@ theorem compile_state (f : Facts) (hm : f.compileMutates = false) (ord : Ord) (b
       · left; rfl
       · right; rfl
 
+theorem compilePost_ne_ok (b : Builder) (ord : Ord) (o : COpts) : compilePost b ord o ≠ some .ok := by
+  unfold compilePost
+  repeat' split
+  all_goals simp
+
 theorem compile_ok_flags (f : Facts) (ord : Ord) (b : Builder) (o : COpts)
     (h : (compile f ord b o).2.1 = .ok) :
     (compile f ord b o).1.compiled = true ∧ (compile f ord b o).1.buildError = none ∧ b.buildError = none := by
@@ -146,7 +155,9 @@ theorem compile_ok_flags (f : Facts) (ord : Ord) (b : Builder) (o : COpts)
     split at h
     · simp at h
     · split at h
-      · simp at h
+      · rename_i oc hpost
+        simp at h; subst h
+        exact absurd hpost (compilePost_ne_ok _ _ _)
       · simp_all
 
 end EinoV.Build
